@@ -102,7 +102,9 @@ FNS = {
 }
 EXPANDING = (3, 6)
 BACKEND_NAMES = {0: 'sched', 1: 'sched+pickle', 2: 'dummy', 3: 'threadpool', 4: 'mp+cloudpickle', 5: 'mp+dill',
-                 6: 'ppe+cloudpickle', 7: 'ppe+dill', 8: 'lazy-map'}
+                 6: 'ppe+cloudpickle', 7: 'ppe+dill', 8: 'lazy-map',
+                 # program cases only (not part of the model protocol): a thread pool with a real serializer pair
+                 9: 'threadpool+cloudpickle', 10: 'threadpool+dill'}
 ACTION_NAMES = {0: 'runJob', 1: 'collect', 2: 'count', 3: 'sum', 4: 'coalesce', 5: 'unpersist', 6: 'take'}
 
 _POOLS = {}
@@ -117,7 +119,7 @@ def _real_pool(backend):
     """Process/thread pools are expensive to start: one per kind, reused by all cases of the run."""
     if backend == 8:
         return LazyMapPool()
-    kind = {3: 'tpe', 4: 'mp', 5: 'mp', 6: 'ppe', 7: 'ppe'}[backend]
+    kind = {3: 'tpe', 4: 'mp', 5: 'mp', 6: 'ppe', 7: 'ppe', 9: 'tpe', 10: 'tpe'}[backend]
     if kind not in _POOLS:
         if kind == 'tpe':
             from concurrent.futures import ThreadPoolExecutor
@@ -166,9 +168,9 @@ def make_context(backend, timed, schedules=(), max_retries=None):
         kw['pool'] = pool
     elif backend != 2:
         kw['pool'] = _real_pool(backend)
-    if backend in (1, 4, 6):
+    if backend in (1, 4, 6, 9):
         kw.update(serializer=cloudpickle.dumps, deserializer=pickle.loads)
-    elif backend in (5, 7):
+    elif backend in (5, 7, 10):
         kw.update(serializer=dill.dumps, deserializer=dill.loads)
     return pysparkling.Context(**kw), pool
 
@@ -234,7 +236,7 @@ def observe(backend, timed, parts, stages, jobs):
 def _is_program_case(case):
     """('free' | 'history', backend, timed, spec, schedules): a replayable cross-backend program (judged by the oracle
     alone; the model does not decode it and answers BadCase, which is also what impl returns)."""
-    return isinstance(case, (tuple, list)) and len(case) == 5 and case[0] in ('free', 'history', 'partial')
+    return isinstance(case, (tuple, list)) and len(case) == 5 and case[0] in ('free', 'history', 'partial', 'closure')
 
 
 def impl(case):
@@ -551,6 +553,12 @@ def generate(rng, tier):
 
 def shrink_candidates(case):
     if _is_program_case(case):
+        if case[0] == 'closure':
+            data, slices, how, steps = case[3]
+            for i in range(len(steps)):
+                yield (case[0], case[1], case[2], (data, slices, how, steps[:i] + steps[i + 1:]), case[4])
+            if len(data) > 1:
+                yield (case[0], case[1], case[2], (data[:-1], slices, how, steps), case[4])
         if case[0] == 'partial':
             data, slices, steps = case[3]
             for i in range(len(steps)):
@@ -709,6 +717,7 @@ def extra_checks(rng, tier, workdir):  # pylint: disable=unused-argument
     yield from _free_checks(rng, n, have, None)
     yield from _history_checks(rng, n, have, None)
     yield from _partial_checks(rng, 2 * n, have)
+    yield from _closure_checks(rng, 2 * n, have + [b for b, m in ((9, cloudpickle), (10, dill)) if m is not None])
 
 
 FREE_NAMES = ['collect', 'count', 'second-collect', 'coalesce', 'sampleByKey', 'reduce', 'fold', 'aggregate', 'take',
@@ -732,6 +741,8 @@ def _judge_program(case):
             return _judge_free(backend, timed, spec, sched, scratch)
         if which == 'partial':
             return _judge_partial(backend, spec, sched)
+        if which == 'closure':
+            return _judge_closure(backend, spec, sched)
         return _judge_history(backend, timed, spec, sched, scratch)
     finally:
         shutil.rmtree(scratch, ignore_errors=True)
@@ -1054,6 +1065,153 @@ def _partial_checks(rng, n, have):
             case = ('partial', b, 0, spec, sched)
             o = _judge_program(case)
             _EXTRA['partial_backend_runs'] = _EXTRA.get('partial_backend_runs', 0) + 1
+            if o is not None:
+                yield (o[0], o[1], 'replayable: ./check C03 --replay <this file>', case)
+                if o[0].startswith('dummy:'):
+                    break
+
+
+# ---------------------------------------------------------------------------------------------------
+# state captured by the functions of a dataset and CHANGED IN PLACE between two actions on the same dataset object:
+# a list a lambda closes over, a default argument, an attribute of the object a bound method belongs to, a dict a
+# filter closes over, the fractions dict handed to sampleByKey (kept by reference).  A job is submitted with the
+# driver's CURRENT state: action A, mutation, the same action A again (and A, mutation, B) must give, on every backend
+# -- in particular with real function serializers -- what the in-process executor gives, i.e. the plain-list
+# meaning under the new state, never a stale serialized copy.
+CLOSURE_KINDS = ['list', 'default', 'attr', 'dictfilter', 'fractions', 'below-persist']
+CLOSURE_ACTIONS = ['collect', 'count', 'sum', 'glom', 'take2']
+
+
+class _Scaler:
+    def __init__(self, k):
+        self.k = k
+
+    def apply(self, x):
+        return x * self.k
+
+
+def _closure_spec(rng):
+    data = [rng.randint(0, 9) for _ in range(rng.choice([2, 3, 5, 8]))]
+    slices = rng.randint(1, 4)
+    how = rng.choice(CLOSURE_KINDS)
+    steps = []
+    for _ in range(rng.randint(1, 3)):
+        a = rng.choice(CLOSURE_ACTIONS)
+        steps += [('act', a), ('mutate', rng.randint(2, 9)), ('act', a)]             # A, mutate, A
+        if rng.random() < 0.5:
+            steps += [('mutate', rng.randint(2, 9)), ('act', rng.choice(CLOSURE_ACTIONS))]   # ..., mutate, B
+    return (data, slices, how, steps)
+
+
+def _closure_plain(data, how, v):
+    """Plain-list content of the dataset when the captured state holds v."""
+    if how == 'list':
+        return [x + v + 1 for x in data]
+    if how in ('default', 'attr', 'below-persist'):
+        return [x * v for x in data]
+    if how == 'dictfilter':
+        return [x for x in data if x % v != 0]
+    return [(x % 3, x) for x in data if x % 3 == v % 3]        # fractions: key v % 3 has fraction 1.0, the others 0.0
+
+
+def _closure_program(spec):
+    data, slices, how, steps = spec
+
+    def program(sc):
+        src = sc.parallelize(list(data), slices)
+        if how == 'list':
+            state = [1, 1]
+            d = src.map(lambda x: x + sum(state))
+            mutate = lambda v: state.__setitem__(0, v)                          # noqa: E731
+        elif how == 'default':
+            state = [1]
+            d = src.map(lambda x, k=state: x * k[0])
+            mutate = lambda v: state.__setitem__(0, v)                          # noqa: E731
+        elif how == 'attr':
+            obj = _Scaler(1)
+            d = src.map(obj.apply)
+            mutate = lambda v: setattr(obj, 'k', v)                             # noqa: E731
+        elif how == 'dictfilter':
+            state = {'m': 1}
+            d = src.filter(lambda x: x % state['m'] != 0)
+            mutate = lambda v: state.update(m=v)                                # noqa: E731
+        elif how == 'fractions':
+            fractions = {0: 0.0, 1: 1.0, 2: 0.0}
+            d = src.map(lambda x: (x % 3, x)).sampleByKey(False, fractions, seed=3)
+
+            def mutate(v):
+                for k in (0, 1, 2):
+                    fractions[k] = 1.0 if k == v % 3 else 0.0
+        else:   # the captured state sits ABOVE a persisted dataset: the cache must not freeze it
+            state = [1]
+            d = src.persist().map(lambda x: x * state[0])
+            mutate = lambda v: state.__setitem__(0, v)                          # noqa: E731
+        out = []
+        for step in steps:
+            try:
+                if step[0] == 'mutate':
+                    mutate(step[1])
+                    value = None
+                elif step[1] == 'glom':
+                    value = [list(p) for p in d.glom().collect()]
+                elif step[1] == 'take2':
+                    value = d.take(2)
+                else:
+                    value = getattr(d, step[1])()
+            except Exception as e:  # pylint: disable=broad-except
+                value = ('raised', type(e).__name__)
+            out.append((step, value))
+        return out
+    return program
+
+
+def _judge_closure(backend, spec, sched):
+    data, _slices, how, steps = spec
+    program = _closure_program(spec)
+    want, err = _default_executor(('closure', spec), lambda: program(make_context(2, 0)[0]))
+    if err:
+        return ('dummy:closure-history-raised', err)
+    got = want
+    bname = BACKEND_NAMES[backend]
+    if backend != 2:
+        try:
+            got = program(make_context(backend, 0, sched)[0])
+        except Exception as e:  # pylint: disable=broad-except
+            return (f'{bname}:closure-history-raised:{type(e).__name__}', 'history raised on this backend only')
+    v = 1
+    acted = False
+    for n_step, (g, w) in enumerate(zip(got, want)):
+        step = w[0]
+        if step[0] == 'mutate':
+            v = step[1]
+            continue
+        lst = _closure_plain(data, how, v)
+        if how == 'fractions' and not acted:
+            lst = [(x % 3, x) for x in data if x % 3 == 1]
+        acted = True
+        plain = {'collect': lst, 'count': len(lst), 'take2': lst[:2]}.get(step[1])
+        if step[1] == 'sum' and how != 'fractions':
+            plain = sum(lst)
+        when = 'after-in-place-mutation' if any(st[0] == 'mutate' for st in steps[:n_step]) else 'before-any-mutation'
+        if plain is not None and g[1] != plain:
+            return (f'{bname}:captured-state:{how}:{step[1]}:{when}:differs-from-plain-list-meaning',
+                    f'step #{n_step} {step[1]} with the captured state at {v}: {g[1]!r}; the plain-list meaning is {plain!r}')
+        if g != w:
+            return (f'{bname}:captured-state:{how}:{step[1]}:{when}:differs-from-default-executor',
+                    f'step #{n_step} {step[1]} with the captured state at {v}: {g[1]!r}; the default executor gives {w[1]!r}')
+    return None
+
+
+def _closure_checks(rng, n, have):
+    for _ in range(n):
+        spec = _closure_spec(rng)
+        _EXTRA['closure_histories'] = _EXTRA.get('closure_histories', 0) + 1
+        for b in [2] + have:
+            sched = ([[rng.randrange(max(1, spec[1])) for _ in range(rng.randint(0, 40))] for _ in range(len(spec[3]) + 2)]
+                     if b in (0, 1) else [])
+            case = ('closure', b, 0, spec, sched)
+            o = _judge_program(case)
+            _EXTRA['closure_backend_runs'] = _EXTRA.get('closure_backend_runs', 0) + 1
             if o is not None:
                 yield (o[0], o[1], 'replayable: ./check C03 --replay <this file>', case)
                 if o[0].startswith('dummy:'):
